@@ -1364,7 +1364,7 @@ func toFloat64(v interface{}) (float64, error) {
 	case int64:
 		return float64(val), nil
 	case string:
-		f, err := strconv.ParseFloat(val, 64)
+		f, err := parseDecimal(val)
 		if err != nil {
 			return 0, err
 		}
@@ -1388,6 +1388,21 @@ func toFloat64(v interface{}) (float64, error) {
 	}
 
 	return 0, fmt.Errorf("cannot convert %T to float64", v)
+}
+
+// parseDecimal reads a number written in decimal notation (digits, one
+// point, an exponent). strconv.ParseFloat alone also accepts "nan", "inf",
+// "infinity", digits grouped with underscores and hexadecimal floats, none
+// of which is a number in a template: 'nan' == 'nan' must hold.
+func parseDecimal(s string) (float64, error) {
+	for i := 0; i < len(s); i++ {
+		switch c := s[i]; {
+		case c >= '0' && c <= '9', c == '.', c == '+', c == '-', c == 'e', c == 'E':
+		default:
+			return 0, fmt.Errorf("%q is not a decimal number", s)
+		}
+	}
+	return strconv.ParseFloat(s, 64)
 }
 
 // pointerTarget follows a pointer, or a chain of pointers, to a number, string,
